@@ -64,6 +64,10 @@ def replay_refuse(case):
     extra = ['TRAILER RECORD IP0075T1  00000003'] if case == 'other-trailer-only' else []
     f = _file(mciipm, extra + ['2100000A036' + 'X' * 40] + extra, 'latin_1', False, trailer=(case not in ('no-trailer', 'other-trailer-only')))
     caller = {'IP0075T1': {'col': {'start': 19, 'end': 22}}, 'IP0190T1': {'col': {'start': 19, 'end': 30}}}
+    if case == 'no-records':
+        f = io.BytesIO(b'\x00\x00\x00\x00')
+    elif case == 'zero-bytes':
+        f = io.BytesIO(b'')
     try:
         if case == 'not-in-caller-config':
             mciipm.IpmParamReader(f, 'IP0040T1', param_config=caller)
